@@ -350,17 +350,47 @@ impl State {
 
     fn build_from_file(&mut self, path: Xstr, mode: ContextMode) -> Xresult {
         let s = crate::file::fs_overlay::read_source_file(&path)?;
-        self.context_open(mode)?;
-        self.intern_source(s.into(), Some(path))?;
-        self.build0()?;
-        self.context_close()
+        self.build_source(s.into(), Some(path), mode)
     }
 
     fn build_from_source(&mut self, s: Xstr, mode: ContextMode) -> Xresult {
+        self.build_source(s, None, mode)
+    }
+
+    fn build_source(&mut self, s: Xstr, path: Option<Xstr>, mode: ContextMode) -> Xresult {
+        let depth = self.nested.len();
+        let inputs = self.input.len();
+        let ds_len = self.data_stack.len();
+        let heap_len = self.heap.len();
         self.context_open(mode)?;
-        self.intern_source(s, None)?;
-        self.build0()?;
+        self.intern_source(s, path)?;
+        if let Err(e) = self.build0() {
+            self.build_unwind(depth, inputs, ds_len, heap_len);
+            return Err(e);
+        }
         self.context_close()
+    }
+
+    // A source rejected while it was being read or compiled must leave no trace:
+    // drop its unread text, the contexts it opened (meta blocks included) and
+    // everything compiled, defined or allocated on its behalf.
+    fn build_unwind(&mut self, depth: usize, inputs: usize, ds_len: usize, heap_len: usize) {
+        self.input.truncate(inputs);
+        while self.nested.len() > depth + 1 {
+            self.ctx = self.nested.pop().unwrap();
+        }
+        self.code.truncate(self.ctx.cs_len);
+        self.debug_map.truncate(self.ctx.cs_len);
+        self.flow_stack.truncate(self.ctx.fs_len);
+        self.dict.truncate(self.ctx.di_len);
+        self.return_stack.truncate(self.ctx.rs_len);
+        self.loops.truncate(self.ctx.ls_len);
+        self.special.truncate(self.ctx.ss_ptr);
+        self.data_stack.truncate(ds_len);
+        self.heap.truncate(heap_len);
+        if self.nested.len() > depth {
+            self.ctx = self.nested.pop().unwrap();
+        }
     }
 
     pub fn eval_file(&mut self, path: Xstr) -> Xresult {
@@ -526,10 +556,15 @@ impl State {
             .pop()
             .ok_or_else(|| Xerr::unbalanced_context())?;
         if self.ctx.mode == ContextMode::Eval {
-            self.run()?;
+            let res = self.run();
             if prev.mode == ContextMode::Eval {
                 // preserve current ip value
                 prev.ip = self.ctx.ip;
+            }
+            if res.is_err() {
+                // the source was read completely: leave its context as usual
+                self.ctx = prev;
+                return res;
             }
         } else if self.ctx.mode == ContextMode::MetaEval {
             self.run()?;
